@@ -69,6 +69,7 @@ DISPATCHER_CFG = [
     ('direct', True, 'drop'),               # last reference dropped
     ('direct', True, 'remove_handler'),     # stays alive, explicitly removed
     ('direct', False, 'drop'),              # registered from a temporary: gone at once
+    ('direct', True, 'clear+drop'),         # the killer calls dispatcher.clear(), then drops the last reference
 ]
 WORLD_CFG = [
     ('component', False, 'remove_component'),
@@ -77,6 +78,8 @@ WORLD_CFG = [
     ('component', True, 'delete_entity'),
     ('direct', True, 'drop'),
     ('direct', True, 'remove_handler'),
+    ('direct', True, 'clear+drop'),         # free-standing handler: world.clear(), then the last reference goes
+    ('component', False, 'clear'),          # world.clear() deletes the entity that holds the only reference
 ]
 
 
@@ -91,6 +94,7 @@ class Ctx:
         self.strong = {}
         self.ents = {}
         self.refs = {}
+        self.cleared = False        # clear() was called since the flag was last reset
         self.rec = []
         self.late = []              # handlers called although nothing but the dispatcher referred to them any more
         # model: 'live' must be reached, 'open' alive but detached (left open), 'removed' alive and must not be
@@ -127,6 +131,20 @@ class Ctx:
         elif route == 'delete_entity':
             self.d.delete_entity(self.ents[j], immediate=True)
             self.status[j] = 'open' if keep else 'gone'
+        elif route in ('clear+drop', 'clear'):
+            self.clear_all()
+            if route == 'clear+drop':
+                self.strong.pop(j, None)
+                self.status[j] = 'gone'
+
+    def clear_all(self):
+        """dispatcher.clear() / world.clear(): nobody is registered afterwards; a World also deletes every entity, so
+        components the program does not hold are gone, everything the program holds is alive and unregistered"""
+        self.d.clear()
+        self.cleared = True
+        for i, st in self.status.items():
+            if st in ('live', 'open'):
+                self.status[i] = 'removed' if i in self.strong else 'gone'
 
 
 def run_program(sp, world_mode, cfg, kill, pre, mid, perm, what, defer=0):
@@ -145,11 +163,15 @@ def run_program(sp, world_mode, cfg, kill, pre, mid, perm, what, defer=0):
     order = tuple(ctx.rec)
     # --- armed dispatch: callbacks make other handlers disappear
     before = dict(ctx.status)
+    ctx.cleared = False
     dispatch(sp, ctx, True, what, 'dispatch with disappearing handlers', deferred=defer >= 1)
     victims = set()
     for i in ctx.rec:
         if i is not None:
             victims.update(kill[i])
+    if ctx.cleared:
+        victims = set(range(k))     # clear() during the dispatch unregistered everybody
+        sp.cover('cleared-during-dispatch')
     judge(sp, ctx, before, victims, what, 'dispatch with disappearing handlers')
     if any(before[j] == 'live' and ctx.status[j] == 'gone' for j in range(k)):
         sp.cover('died-during-dispatch')
@@ -287,28 +309,31 @@ HARNESSES = {
     'weak': dict(fn=h_weak,
                  nontrivial=['died-during-dispatch', 'detached-alive-during-dispatch', 'survivors-and-dead'],
                  required=['kill-relation', 'died-during-dispatch', 'died-before-its-turn',
-                           'detached-alive-during-dispatch', 'survivors-and-dead', 'all-listener-orders']),
+                           'detached-alive-during-dispatch', 'survivors-and-dead', 'all-listener-orders',
+                           'cleared-during-dispatch']),
 }
 
-DEFER_REQ = ['kill-relation', 'died-during-dispatch', 'died-before-its-turn', 'detached-alive-during-dispatch',
-             'survivors-and-dead', 'all-listener-orders', 'died-during-deferred-release']
+NOCLEAR_REQ = ['kill-relation', 'died-during-dispatch', 'died-before-its-turn', 'detached-alive-during-dispatch',
+               'survivors-and-dead', 'all-listener-orders']
+DEFER_REQ = NOCLEAR_REQ + ['died-during-deferred-release', 'cleared-during-dispatch']
 
 TIERS = {
     'quick': [
         ('weak', dict(k=2, world=False, diag=True)),
         ('weak', dict(k=2, world=True, diag=True)),
         ('weak', dict(k=3, world=False, drops=False)),
-        ('weak', dict(k=3, world=True, cfgs=[0, 1, 3, 4], drops=False)),
+        ('weak', dict(k=3, world=True, cfgs=[0, 1, 3, 4, 6], drops=False)),
         ('weak', dict(k=2, world=False, diag=True, drops=False, defer=(1, 2)), {'required': DEFER_REQ}),
         ('weak', dict(k=2, world=True, diag=True, drops=False, defer=(1, 2)), {'required': DEFER_REQ}),
-        ('weak', dict(k=3, world=True, cfgs=[0, 1, 3, 4], drops=False, defer=(1,)), {'required': DEFER_REQ}),
+        ('weak', dict(k=3, world=True, cfgs=[0, 1, 3, 4, 6], drops=False, defer=(1,)), {'required': DEFER_REQ}),
     ],
     'thorough': [
         ('weak', dict(k=3, world=False, diag=True, drops=False)),
         ('weak', dict(k=3, world=False)),
         ('weak', dict(k=2, world=True, diag=True)),
         ('weak', dict(k=3, world=True, drops=False)),
-        ('weak', dict(k=3, world=True, cfgs=[0, 1, 3, 4])),
+        ('weak', dict(k=3, world=True, cfgs=[0, 1, 3, 4]), {'required': NOCLEAR_REQ}),
+        ('weak', dict(k=3, world=True, cfgs=[1, 4, 6, 7])),
         ('weak', dict(k=3, world=False, drops=False, defer=(1, 2)), {'required': DEFER_REQ}),
         ('weak', dict(k=2, world=True, diag=True, defer=(1, 2)), {'required': DEFER_REQ}),
         ('weak', dict(k=3, world=True, drops=False, defer=(1, 2)), {'required': DEFER_REQ}),
@@ -318,7 +343,8 @@ BUDGET_S = {'quick': 120, 'thorough': 1500}
 
 EXPLANATION = (
     'Every path is a program over k handlers of one event: per handler who holds it strongly and by which route '
-    'it disappears (drop the last reference, remove_handler, remove_component, delete_entity(immediate)), a kill '
+    'it disappears (drop the last reference, remove_handler, remove_component, delete_entity(immediate), clear() of the '
+    'dispatcher or World followed by dropping the last reference), a kill '
     'matrix (whose callback makes whom disappear), drops before and between the dispatches; all of these are '
     'solver choices and the explorer visits every feasible combination.  The program runs natively on the real '
     'EventDispatcher / World with CPython reference counting, once per assignment of handlers to creation slots, '
@@ -329,8 +355,8 @@ EXPLANATION = (
 RULE = ('one evaluation = one feasible path = one program (run under all k! listener orders); non-trivial = a '
         'handler died or was detached in the middle of a dispatch, or a later dispatch had both survivors and dead')
 BOUNDS = {
-    'quick': '2 handlers: all configurations (3 on an EventDispatcher, 6 on a World), full 2x2 kill matrix incl. self, '
-             'drops before and between the dispatches; 3 handlers: 6-bit kill matrix, no drops, 3 dispatcher / 4 World '
+    'quick': '2 handlers: all configurations (4 on an EventDispatcher, 8 on a World, incl. clear()), full 2x2 kill matrix incl. self, '
+             'drops before and between the dispatches; 3 handlers: 6-bit kill matrix, no drops, 4 dispatcher / 5 World '
              'configurations; deferred mode (the dispatch with disappearing handlers, optionally also the last one, '
              'is issued while disabled and released by dispatch_enabled = True): 2 handlers on both kinds of '
              'dispatcher, 3 handlers on a World; every program under all k! listener orders',
@@ -347,6 +373,9 @@ ASSUMPTIONS = [
     'by an earlier callback of the dispatch must not be called any more (neither with receiver None nor kept '
     'alive by the dispatcher)',
     'handlers removed with remove_handler must not be reached later (dispatcher semantics, C03)',
+    'clear() on the dispatcher / World unregisters every handler (documented): later dispatches reach nobody; '
+    'handlers the program still holds stay alive, components only the World held are gone; during the dispatch in '
+    'which clear() is called every handler counts as made to disappear in that dispatch',
     'handler objects define __hash__ as a per-slot constant (legal Python) so that listener order is '
     'reproducible; gc.collect() is only called when a weak reference is not already dead',
     'reference counting CPython (the statement is about dropping the last reference)',
